@@ -436,6 +436,11 @@ impl<'a, F: IVP> SolOut for DefaultSolOut<'a, F> {
                         if (*x - target).abs() > self.tol {
                             self.t.push(*x);
                             self.y.push(y.to_vec());
+                        } else if self.first_output_done {
+                            // The step ends on the target to rounding: report the step end
+                            // itself, so that a run ending here ends exactly at xend
+                            *self.t.last_mut().unwrap() = *x;
+                            self.y.last_mut().unwrap().copy_from_slice(y);
                         }
                         return ControlFlag::Continue;
                     } else {
